@@ -730,9 +730,8 @@ func ParseTCP(flowMessage *ProtoProducerMessage, data []byte, pc ParseConfig) (r
 		return res, nil
 	}
 
-	length := int(data[13]>>4) * 4
-
-	res.Size = 20 + length
+	// the data offset (header length in 32-bit words) is the high nibble of byte 12
+	res.Size = int(data[12]>>4) * 4
 
 	flowMessage.AddLayer("TCP")
 
